@@ -7,11 +7,20 @@ from fdtdx.fdtd.container import ObjectContainer, PmlAuxField
 from fdtdx.typing import SliceTuple3D
 
 
+def _axis_wraps(config: SimulationConfig, objects: ObjectContainer, axis: int) -> bool:
+    """Whether the min-side halo of ``axis`` holds the wrapped far-side field (periodic/Bloch axis)."""
+    if config.symmetry[axis] != 0:
+        # the min-side halo of a symmetry-reduced axis is never wrapped (see pad_fields_for_boundaries)
+        return False
+    return any(b.uses_wrap_padding and b.axis == axis for b in objects.boundary_objects)
+
+
 def _metric_scale(
     config: SimulationConfig,
     axis: int,
     shape: tuple[int, int, int],
     stencil: str,
+    wrap: bool = False,
 ) -> jax.Array | float:
     """Return the local derivative scale for a rectilinear Yee curl term.
 
@@ -28,7 +37,9 @@ def _metric_scale(
     assert grid is not None
     widths = grid.cell_widths(axis)
     if stencil == "backward":
-        prev_widths = jnp.concatenate([widths[:1], widths[:-1]])
+        # The cell behind the first one is the last cell on a periodic/Bloch axis, else the (equal-width) halo.
+        first = widths[-1:] if wrap else widths[:1]
+        prev_widths = jnp.concatenate([first, widths[:-1]])
         widths = 0.5 * (widths + prev_widths)
     elif stencil != "forward":
         raise ValueError(f"Unknown derivative stencil: {stencil}")
@@ -345,9 +356,9 @@ def curl_H(
             - The updated dictionary of auxiliary electric fields `psi_E`.
     """
     shape = H_pad.shape[1] - 2, H_pad.shape[2] - 2, H_pad.shape[3] - 2
-    dx_scale = _metric_scale(config, axis=0, shape=shape, stencil="backward")
-    dy_scale = _metric_scale(config, axis=1, shape=shape, stencil="backward")
-    dz_scale = _metric_scale(config, axis=2, shape=shape, stencil="backward")
+    dx_scale = _metric_scale(config, axis=0, shape=shape, stencil="backward", wrap=_axis_wraps(config, objects, 0))
+    dy_scale = _metric_scale(config, axis=1, shape=shape, stencil="backward", wrap=_axis_wraps(config, objects, 1))
+    dz_scale = _metric_scale(config, axis=2, shape=shape, stencil="backward", wrap=_axis_wraps(config, objects, 2))
 
     Hx = H_pad[0]
     Hy = H_pad[1]
